@@ -46,6 +46,8 @@ CLAIMS = {
                 text='All library allocations are observable (malloc/free renamed at compile time). For every history of C08 and every driver call outcome (success, singular, workspace query) on all patterns n<=3: live blocks after refactor/solve equal those after the first factorization; after the documented clean-up the heap equals its pre-history state.', ref='5 C17'),
     'C18': dict(cat='exploration', engine='mchist', tech='bounded-exhaustive enumeration of (prefix history, probe) pairs with a differential oracle against a fresh process',
                 text='After every history of the C08 alphabet (depth<=4) and after singular / failed-allocation / expert-driver / other-size calls, a fixed probe (first factorization + solves) must produce bit-identical L, U, permutations and solutions to the same probe in a freshly forked process.', ref='5 C18'),
+    'C19': dict(cat='exploration', engine='mckern', tech='bounded-exhaustive enumeration of small matrices/factors x the full argument grid of each kernel against dense long-double definitions',
+                text='sp_?gemv / sp_?gemm on all patterns m,n<=3 x op {N,T,C} x alpha/beta incl. 0,1 x increments +-1,+-2 x leading dimensions (padding checked); sp_?trsv for all (uplo,trans,diag) on the real supernodal factors of every nonsingular pattern n<=4 x factor options; ?langs all norms; row-to-column conversion, copy and permuted-view constructors; 4 precisions; each call fork-isolated.', ref='5 C19'),
     'C09': dict(cat='exploration', tech='bounded-exhaustive enumeration; the statement implemented literally as a checker on every returned factorization',
                 text='wellformed(L,U,perm_r,perm_c) checks bijections, supernode partition/maps, row-list shape, U placement, extent disjointness, nnz fields and dependency order on every '
                      'successful factorization of the C02 enumeration (first-time; refactored ones in C08).', ref='5 C09'),
@@ -91,6 +93,7 @@ def main():
             {'name': 'mcexpert', 'path': 'engines/mcexpert', 'serves_properties': ['C07', 'C11', 'C12', 'C13'], 'kind_free_text': 'Engine Q: expert-driver enumeration (trans x storage x fact x equed x scalings) against long-double / quad references'},
             {'name': 'mcargs', 'path': 'engines/mcargs', 'serves_properties': ['C15'], 'kind_free_text': 'Engine Q: illegal-argument enumeration (singles and ordered pairs) with side-effect / leak oracles'},
             {'name': 'mchist', 'path': 'engines/mchist', 'serves_properties': ['C08', 'C17', 'C18'], 'kind_free_text': 'Engine Q: call-history enumeration (first factor / refactor / solve / destroy) with per-call oracles, allocator model and fresh-process differential probe'},
+            {'name': 'mckern', 'path': 'engines/mckern', 'serves_properties': ['C19'], 'kind_free_text': 'Engine Q: sparse kernels / norms / format conversions vs dense long-double definitions (delegated build, reviewed)'},
             {'name': 'mcseq', 'path': 'engines/mcseq', 'serves_properties': ['C01', 'C02', 'C05', 'C06', 'C09', 'C16'],
              'kind_free_text': 'Engine Q: bounded-exhaustive enumeration of inputs, options, call histories and faults of the sequential API against long-double reference models, crash-isolated'},
         ],
